@@ -6,27 +6,27 @@ set_option maxHeartbeats 1000000
 namespace CircBuf
 
 /-! ### push / pop -/
-theorem tie_push_back (x : Elem) (s : Sys) (h : Inv s.buf)
+maybe theorem tie_push_back (x : Elem) (s : Sys) (h : Inv s.buf)
     (hnd : NonDefect (pushBack x s).1) :
     Gen.push_back x s = pushBack x s := by
   tie3 h hnd [Gen.push_back, pushBack]
-theorem tie_push_front (x : Elem) (s : Sys) (h : Inv s.buf)
+maybe theorem tie_push_front (x : Elem) (s : Sys) (h : Inv s.buf)
     (hnd : NonDefect (pushFront x s).1) :
     Gen.push_front x s = pushFront x s := by
   tie3 h hnd [Gen.push_front, pushFront]
-theorem tie_try_push_back (x : Elem) (s : Sys) (h : Inv s.buf)
+maybe theorem tie_try_push_back (x : Elem) (s : Sys) (h : Inv s.buf)
     (hnd : NonDefect (tryPushBack x s).1) :
     Gen.try_push_back x s = tryPushBack x s := by
   tie3 h hnd [Gen.try_push_back, tryPushBack]
-theorem tie_try_push_front (x : Elem) (s : Sys) (h : Inv s.buf)
+maybe theorem tie_try_push_front (x : Elem) (s : Sys) (h : Inv s.buf)
     (hnd : NonDefect (tryPushFront x s).1) :
     Gen.try_push_front x s = tryPushFront x s := by
   tie3 h hnd [Gen.try_push_front, tryPushFront]
-theorem tie_pop_back (s : Sys) (h : Inv s.buf)
+maybe theorem tie_pop_back (s : Sys) (h : Inv s.buf)
     (hnd : NonDefect (popBack s).1) :
     Gen.pop_back s = popBack s := by
   tie3 h hnd [Gen.pop_back, popBack]
-theorem tie_pop_front (s : Sys) (h : Inv s.buf)
+maybe theorem tie_pop_front (s : Sys) (h : Inv s.buf)
     (hnd : NonDefect (popFront s).1) :
     Gen.pop_front s = popFront s := by
   tie3 h hnd [Gen.pop_front, popFront]
